@@ -891,32 +891,32 @@ def gen_seq_model(rng, ctx):
     return SeqModel(kind, alph, syms, alph_obj)
 
 
-def check_seq(ctx, obj, m, what="", full=True):
-    ctx.oracle("seq_vs_model")
+def check_seq(ctx, obj, m, what="", full=True, oracle="seq_vs_model"):
+    ctx.oracle(oracle)
     exp = m.syms
     if len(obj) != len(exp):
-        ctx.fail("seq_vs_model", "%s: len %d, model %d" % (what, len(obj), len(exp)))
+        ctx.fail(oracle, "%s: len %d, model %d" % (what, len(obj), len(exp)))
     got = list(obj.symbols)
     if m.letter:
         got = [str(x) for x in got]
     if got != exp:
-        ctx.fail("seq_vs_model", "%s: symbols %s, model %s" % (what, _short(got), _short(exp)))
+        ctx.fail(oracle, "%s: symbols %s, model %s" % (what, _short(got), _short(exp)))
     if str(obj) != m.text():
-        ctx.fail("seq_vs_model", "%s: str() %r, model %r" % (what, str(obj)[:200], m.text()[:200]))
+        ctx.fail(oracle, "%s: str() %r, model %r" % (what, str(obj)[:200], m.text()[:200]))
     if not full:
         return
     index = {s: i for i, s in enumerate(m.alph)}
     code = obj.code
     if code.dtype != seq_dtype(len(m.alph)) or code.tolist() != [index[s] for s in exp]:
-        ctx.fail("seq_vs_model", "%s: code %s %s" % (what, code.dtype, _short(code.tolist())))
+        ctx.fail(oracle, "%s: code %s %s" % (what, code.dtype, _short(code.tolist())))
     if tuple(obj.get_alphabet().get_symbols()) != tuple(m.alph):
-        ctx.fail("seq_vs_model", "%s: alphabet %s, model %s" % (what, _short(obj.get_alphabet().get_symbols()), _short(m.alph)))
+        ctx.fail(oracle, "%s: alphabet %s, model %s" % (what, _short(obj.get_alphabet().get_symbols()), _short(m.alph)))
     if len(exp) <= 12:
         it = list(obj)
         if (([str(x) for x in it]) if m.letter else it) != exp:
-            ctx.fail("seq_vs_model", "%s: iteration %s" % (what, _short(it)))
+            ctx.fail(oracle, "%s: iteration %s" % (what, _short(it)))
     if not obj.is_valid():
-        ctx.fail("seq_vs_model", "%s: is_valid() False" % what)
+        ctx.fail(oracle, "%s: is_valid() False" % what)
 
 
 def gen_seq_index(rng, n):
@@ -1256,8 +1256,7 @@ def seq_step(ctx, rng, st):
         ctx.log("complement")
         c = obj.complement()
         cm = m.clone([R.IUPAC_COMPLEMENT[s] for s in m.syms])
-        ctx.oracle("complement_iupac")
-        check_seq(ctx, c, cm, "complement")
+        check_seq(ctx, c, cm, "complement", oracle="complement_iupac")
         check_seq(ctx, obj, m, "original after complement", full=False)
         st["obj"], st["m"] = c, cm
         return
@@ -1294,12 +1293,10 @@ def case_complement(rng, ctx):
     ctx.op("complement")
     c = s.complement()
     cm = m.clone([R.IUPAC_COMPLEMENT[x] for x in syms])
-    ctx.oracle("complement_iupac")
-    check_seq(ctx, c, cm, "complement")
+    check_seq(ctx, c, cm, "complement", oracle="complement_iupac")
     check_seq(ctx, s, m, "original after complement")
     cc = c.complement()
-    ctx.oracle("complement_involution")
-    check_seq(ctx, cc, m, "complement(complement(x))")
+    check_seq(ctx, cc, m, "complement(complement(x))", oracle="complement_involution")
     if not (cc == s):
         ctx.fail("complement_involution", "complement(complement(x)) != x")
     rc1 = str(s.reverse().complement())
